@@ -187,3 +187,27 @@ Proof.
        destruct (C10_absent_resource_contributes_nothing c x 0 f t) as [_ A]; apply A; exact E.
 Qed.
 Print Assumptions C10_individually_absent_resource_is_dead.
+
+(* (f) is FALSE for the FIFO rule, also in the model: the recorded finding
+   C10/f-fifo as a theorem.  In the project ex_fifo_cfg (three tasks, two
+   workers, no facilities, no individual absences, auto-task flag off) with
+   project-wide absence at steps 0 and 1 both runs succeed, but the run with the
+   absence steps deleted lasts 5 steps and the absence-free run 4: while task 2
+   is WORKING through the absence steps it is logged READY twice, so the FIFO key
+   (number of READY entries) later sends the freed worker 0 to task 2 instead of
+   task 0.  The same case is corpus/C10/fifo_small.json for the implementation. *)
+Theorem C10_deletion_refuted_for_FIFO :
+  exists c o s0,
+    o_rule o = 4%Z /\ o_auto_abs o = false /\ (forall w, w_abs c w = []) /\ (forall f, f_abs c f = [])
+    /\ Forest c /\ o_init_state o = true /\ o_init_log o = true
+    /\ status (fst (simulate c o s0)) = StSuccess /\ status (fst (simulate c (no_abs o) s0)) = StSuccess
+    /\ ~ same_result c (snd (remove_absence c (o_abs o, fst (simulate c o s0)))) (fst (simulate c (no_abs o) s0)).
+Proof.
+  exists ex_fifo_cfg, ex_fifo_opts, (blank ex_fifo_cfg).
+  split; [reflexivity|]. split; [reflexivity|]. split; [intros w; reflexivity|]. split; [intros f; reflexivity|].
+  split; [intros k; vm_compute; repeat constructor; cbn; intuition discriminate|].
+  split; [reflexivity|]. split; [reflexivity|].
+  split; [vm_compute; reflexivity|]. split; [vm_compute; reflexivity|].
+  intros (Ht & _). vm_compute in Ht. discriminate.
+Qed.
+Print Assumptions C10_deletion_refuted_for_FIFO.
